@@ -81,9 +81,33 @@ EXTRA = []
 _extra_names = set()
 
 
+_divmod_memo = {}
+
+
 def reset_extra():
     EXTRA.clear()
     _extra_names.clear()
+    _divmod_memo.clear()
+
+
+def define_divmod(a, b):
+    """floor division and remainder of a by b as fresh witnesses (q, r) with a == b*q + r and r in
+    the range Python gives it; the defining constraints are facts of every query of the function under
+    verification (they determine q and r uniquely for b != 0, so adding them is conservative)"""
+    if isinstance(a, int):
+        a = z3.IntVal(a)
+    if isinstance(b, int):
+        b = z3.IntVal(b)
+    na, nb = z3.simplify(a), z3.simplify(b)  # one pair of witnesses per value, however the term is written
+    key = (na.get_id(), nb.get_id())
+    if key not in _divmod_memo:
+        q = fresh("q", Int)
+        r = fresh("r", Int)
+        EXTRA.append(a == b * q + r)
+        EXTRA.append(z3.Implies(b > 0, z3.And(0 <= r, r < b)))
+        EXTRA.append(z3.Implies(b < 0, z3.And(b < r, r <= 0)))
+        _divmod_memo[key] = (q, r, na, nb)  # keep the terms alive so ids are not reused
+    return _divmod_memo[key][0], _divmod_memo[key][1]
 
 
 def add_extra(key, formula):
